@@ -143,3 +143,67 @@ Example C01_example_header :
   let r := hdr_file unit toy_hash toy_chk toy_dec tt true 2 6 1 4 6 (concat (map msg bl) ++ [x21; x66]) (track_of bl) in
   f_out r = Some [x61; x62; x63; x64; x21; x66] /\ f_class r = Complete.
 Proof. vm_compute. repeat split; reflexivity. Qed.
+
+(* ------------------------------------------------------------------ *)
+(* The same theorems on the REAL codecs: chk / enc are the verified facade check and encoder
+   (Facade.fac_check / fac_encode over GF(2^8), any of the four codecs, max_block_size mb <= 255, per-call
+   geometry k); opts = the erasure symbol if erasure handling is on; `cap` is the concrete errors-and-erasures
+   capacity relation pcap (2*errors + erasures <= mb - k, an erasure being every received symbol equal to the erasure
+   symbol) and `wf` is k <= mb /\ |m| <= k.  chk_enc and code_dist are no longer hypotheses: they are discharged
+   from the Reed-Solomon algebra (Proofs/CodecInst.v: encoder validity and uniqueness of bounded-distance decoding
+   from the BCH bound).  Only decoder completeness remains assumed (third-party decoders). *)
+Definition c01_received := received.   (* Facade.v also defines a `received`; keep this file's one under a second name *)
+From Coq Require Import NArith.
+From PFF Require Import Facade Proofs.CodecInst.
+
+Theorem C01_block_rs : forall (algo : N) (mb : nat) hash dec (o : option byte) fast, mb <= 255 ->
+  dec_complete (option byte) (pchk algo mb) dec (penc algo mb) o (pcap mb) (pwf mb) ->
+  forall m0 b, c01_received (option byte) hash (penc algo mb) o (pcap mb) (pwf mb) m0 b ->
+  fst (block_step (option byte) hash (pchk algo mb) dec o fast b) = m0 /\
+  is_failed (snd (block_step (option byte) hash (pchk algo mb) dec o fast b)) = false /\
+  (msg b <> m0 -> is_repaired (snd (block_step (option byte) hash (pchk algo mb) dec o fast b)) = true).
+Proof.
+  intros algo mb hash dec o fast Hmb Hd.
+  exact (C01_block (option byte) hash (pchk algo mb) dec (penc algo mb) o fast (pcap mb) (pwf mb)
+           (pipe_chk_enc algo mb) Hd (pipe_code_dist algo mb Hmb o)).
+Qed.
+Print Assumptions C01_block_rs.
+
+Theorem C01_file_whole_rs : forall (algo : N) (mb : nat) hash dec (o : option byte) fast, mb <= 255 ->
+  dec_complete (option byte) (pchk algo mb) dec (penc algo mb) o (pcap mb) (pwf mb) ->
+  forall hlen mu,
+  (forall m, length (hash m) = hlen) -> (forall c, 1 <= mu c) -> (forall c, 1 <= hlen + (mb - mu c)) ->
+  forall F0 bl junk,
+  Forall2 (damaged (option byte) hash (penc algo mb) o (pcap mb) (pwf mb)) (sa_gen hash mu (penc algo mb) F0) bl ->
+  let F := concat (map msg bl) in
+  let r := sa_file (option byte) hash (pchk algo mb) dec o fast mu mb hlen F (track_of bl ++ junk) (length (track_of bl)) in
+  length F = length F0 /\
+  (f_class r = Clean \/ f_class r = Complete) /\
+  (forall out, f_out r = Some out -> out = F0) /\
+  (F <> F0 -> f_out r = Some F0).
+Proof.
+  intros algo mb hash dec o fast Hmb Hd hlen mu HL MP TP.
+  exact (C01_file_whole (option byte) hash (pchk algo mb) dec (penc algo mb) o fast (pcap mb) (pwf mb)
+           (pipe_chk_enc algo mb) Hd (pipe_code_dist algo mb Hmb o) mb hlen mu HL (pipe_enc_len algo mb) MP TP).
+Qed.
+Print Assumptions C01_file_whole_rs.
+
+Theorem C01_file_header_rs : forall (algo : N) (mb : nat) hash dec (o : option byte) fast, mb <= 255 ->
+  dec_complete (option byte) (pchk algo mb) dec (penc algo mb) o (pcap mb) (pwf mb) ->
+  forall hlen ms hdr,
+  (forall m, length (hash m) = hlen) -> 1 <= ms -> 1 <= hlen + (mb - ms) ->
+  forall F0 bl tail,
+  Forall2 (damaged (option byte) hash (penc algo mb) o (pcap mb) (pwf mb)) (hdr_gen hash (penc algo mb) ms hdr F0) bl ->
+  length tail = length F0 - hdr ->
+  let F := concat (map msg bl) ++ tail in
+  let r := hdr_file (option byte) hash (pchk algo mb) dec o fast ms mb hlen hdr (length F0) F (track_of bl) in
+  length F = length F0 /\
+  (f_class r = Clean \/ f_class r = Complete) /\
+  (forall out, f_out r = Some out -> out = firstn hdr F0 ++ tail) /\
+  (concat (map msg bl) <> firstn hdr F0 -> f_out r = Some (firstn hdr F0 ++ tail)).
+Proof.
+  intros algo mb hash dec o fast Hmb Hd hlen ms hdr HL MS TP.
+  exact (C01_file_header (option byte) hash (pchk algo mb) dec (penc algo mb) o fast (pcap mb) (pwf mb)
+           (pipe_chk_enc algo mb) Hd (pipe_code_dist algo mb Hmb o) mb hlen ms hdr HL (pipe_enc_len algo mb) MS TP).
+Qed.
+Print Assumptions C01_file_header_rs.
